@@ -25,6 +25,8 @@ def run(ctx):
     n = "40" if ctx.tier == "quick" else "2000"
     ctx.pipe([h, "points", n], "inputfn", label="input-functions")
     ctx.pipe([h, "culham", "400" if ctx.tier == "quick" else "5000"], "inputfn", label="culham-jacobian")
+    # translator-independent oracle on the compiled classes (finite differences of the PDE operator)
+    ctx.pipe([h, "fd", "6" if ctx.tier == "quick" else "60"], "inputfn", label="pde-finite-differences")
     ctx.assumptions += ["the (r, theta) form of -div(alpha grad u) + beta u is the classical change of variables of the Cartesian operator; that "
                         "equivalence is not formalised", "the Shafranov / Czarny source-term files (44) are tied POINTWISE to the derived source term, not symbolically; the 21 Circular-geometry problems are theorems (C19s), 6 of them up to the rounding of the decimal literals in the shipped formulas",
                         "Culham: radial profiles are tabulated ODE solutions; only the theta-consistency of mapping and Jacobian is exact, the r part is measured",
